@@ -1260,6 +1260,7 @@ def dispatch (line : String) : String :=
       | "rt" => some runRt
       | "chain" => some (do let _ ← pNat; pure "ok 8 # ok")
       | "diamond" => some (do let _ ← pNat; pure "ok 8 # ok")
+      | "derive-opaque" => some (pure "rust-judged")
       | "genfail" => some (pure "ok # VIOLATION the container writer returned an error on conforming values (met while the generator prepared a file to read)")
       | "api" => some runApi
       | "single" => some runSingle
